@@ -135,6 +135,20 @@ func genHistoryCase(prop, tier string, r *rand.Rand) *Case {
 		cfg.Ops = append(cfg.Ops, HistOp{S: s, Op: pick(r, []string{"ro.compare", "ro.compare", "ro.publish", "ro.diffpage"}), Jobs: pick(r, []int{2, 3, 8}),
 			A: r.IntN(1000), B: r.IntN(1000), C: r.IntN(1000), Seed: r.Uint64(), Tight: pick(r, []int{2, 3, 5, 10, 20})})
 	}
+	if r.IntN(8) == 0 {
+		// one family is given a husband (wife) twice, then something else,
+		// and then the husband (wife) is taken away again: setters that are
+		// repeated leave more than one line of a kind behind
+		s, fam := r.IntN(sessions), r.IntN(1000)
+		a, b := "fam.sethusband", "fam.setwife"
+		if r.IntN(2) == 0 {
+			a, b = b, a
+		}
+		third := pick(r, []string{b, "fam.addchild", b})
+		for _, name := range []string{a, a, third, a + ".nil"} {
+			cfg.Ops = append(cfg.Ops, HistOp{S: s, Op: name, A: fam, B: r.IntN(1000), C: r.IntN(1000), Seed: r.Uint64()})
+		}
+	}
 	for i := 0; i < n; i++ {
 		op := HistOp{S: r.IntN(sessions), A: r.IntN(1000), B: r.IntN(1000), C: r.IntN(1000), Seed: r.Uint64()}
 		k := r.IntN(wEdit + wRead + wRO)
